@@ -36,6 +36,14 @@ def replay_input(doc, repo):
         for b in r.fails:
             print('replay: %s' % b)
         return any(b.get('label') == want for b in r.fails) or bool(r.fails)
+    if inp.get('kind') == 'program':
+        import expand
+        try:
+            expand.get(repo, 'hooks')
+            return False
+        except expand.ExpandError as e:
+            print('replay: %s\n%s' % (e, e.output[:1500]))
+            return e.derive_only
     if inp.get('kind') == 'kani-concrete-playback':
         import kx
         h = inp['harness']
